@@ -30,6 +30,13 @@ def corpus():
         parse_line("Q 0 0 -1 -1 -1 1 0 ; M 1 10 ; M 2 5 ; A 1 1 0 10 100 10 ; U 1 ; A 2 1 0 20 101 20 ; R 10 3 3 7 -1"),
         parse_line("Q 0 0 -1 -1 -1 1 0 ; M 1 5 ; M 2 2 ; A 1 1 0 10 100 10 ; A 1 1 3 20 101 20 ; A 2 1 0 30 102 30 ; "
                    "R 10 3 3 7 -1"),
+        # fixed 9c92a58 (replays/C24-a01b301e15): the owner's dispose is Rejected (mspi=1) and must not release
+        # the instance: writer 2 (strength 1) stays NotAdded, also after the owner's sample was taken
+        parse_line("Q 1 0 2 2 1 1 0 ; M 1 2 ; M 2 1 ; M 3 5 ; A 3 1 0 11 101 13 ; A 3 1 2 23 102 16 ; "
+                   "A 2 1 0 30 103 18 ; T 2147483647 3 3 7 1 ; A 2 1 0 5 104 18 ; R 10 3 3 7 -1"),
+        # same mechanism through the time-based filter: the stronger writer's sample is filtered, no take-over
+        parse_line("Q 0 0 -1 -1 -1 1 10 ; M 1 1 ; M 2 5 ; A 1 1 0 10 100 10 ; A 2 1 0 12 101 12 ; A 1 1 0 25 102 25 ; "
+                   "R 10 3 3 7 -1"),
         # strength changed by a re-match: the former weaker writer becomes stronger
         parse_line("Q 0 0 -1 -1 -1 1 0 ; M 1 5 ; M 2 1 ; A 1 1 0 10 100 10 ; A 2 1 0 11 101 11 ; M 2 7 ; "
                    "A 2 1 0 12 102 12 ; A 1 2 0 13 103 13 ; R 10 3 3 7 -1"),
@@ -44,8 +51,10 @@ MANIFEST = {
              "operation history (add_reader_change with every branch, read/take, next_instance, match/unmatch), with "
              "entitled = 'the instance has no owner, or the writer is the owner, or it is strictly stronger than the "
              "owner': a change from a writer that is not entitled (in particular strength <= the owner's, ties "
-             "included) is NotAdded and leaves cache and ownership table unchanged; a strictly stronger matched "
-             "writer becomes the owner of exactly that instance and is Added when no other gate is configured; every "
+             "included) is NotAdded and leaves cache and ownership table unchanged; a change from an entitled writer "
+             "alters ownership exactly when it is stored: a strictly stronger matched writer then becomes the owner "
+             "of exactly that instance (and is Added when no other gate is configured), while a change refused by the "
+             "time-based filter or a resource limit leaves the ownership table unchanged (for all QoS; fix 9c92a58); every "
              "stored change was written by an entitled writer, which is the owner afterwards; when the stored change "
              "is the owner's dispose/unregister, or when the owner is unmatched, the ownership is released and the "
              "next writer of any strength is entitled; at most one owner per instance in every reachable state "
@@ -59,6 +68,6 @@ MANIFEST = {
              "writer set, see C22). Not modelled: deadline-based hand-over, liveliness loss of the owner (reaches the "
              "reader as remove_matched_publication, which is covered). A writer that is not matched can become owner "
              "of an instance without owner (the gate looks strengths up only when an owner exists); the oracle does "
-             "not judge data from unmatched writers. Defects fixed earlier: 33ec7aa, 416ae4e."),
+             "not judge data from unmatched writers. Defects fixed: 33ec7aa, 416ae4e, 9c92a58 (ownership committed before the filter/limit gates)."),
     "technique": "Coq proof (ownership rule and uniqueness invariant by induction over operation histories) + differential correspondence",
 }
